@@ -21,7 +21,7 @@ RULE = ("E1: (a) do(): every DAG on <=3 nodes (4 in thorough) x every do-set x i
         "get_all_backdoor_adjustment_sets, get_minimal_adjustment_set, is_valid_frontdoor_adjustment_set, "
         "get_all_frontdoor_adjustment_sets under all relabelings, vs explicit path enumeration. non-trivial = distinct "
         "(graph, X, Y) with >=1 back-door path; distinct (model, do, query) where P(y|do(x)) != P(y|x)")
-BOUNDS = {"quick": "(a) n<=3; (b) all 25 DAGs n=3 + 31 iso classes n=4 (|do|=1) ; (c) all DAGs n<=4 (543) under identity + 2 relabelings, n=4 relabelings rotate with VERIF_SEED",
+BOUNDS = {"quick": "(a) n<=3; (b) all 25 DAGs n=3 + 31 iso classes n=4 (|do|=1) ; (c) all DAGs n<=4 (543) under identity + 2 relabelings (rotating with VERIF_SEED) and the 302 isomorphism classes of 5-node DAGs under 2 relabelings",
           "thorough": "(a) n<=4, (b) all DAGs n=4, (c) all 24 relabelings; 5-node iso sample"}
 EXHAUSTIVE = {"quick": True, "thorough": True}
 ASSUMPTIONS = ["strictly positive CPDs (the adjustment formula conditions on (x,z))", "query sets disjoint from the do-set and its parents (the engine refuses others)",
@@ -45,6 +45,10 @@ def groups(tier, seed):
         dags = all_dags(n)
         for i in range(0, len(dags), 12):
             out.append({"part": "crit", "n": n, "lo": i, "hi": min(i + 12, len(dags)), "rot": seed})
+    # criteria on the 302 isomorphism classes of 5-node DAGs (a descendant at depth 2 on a back-door path needs 5 nodes)
+    iso5 = iso_classes(5)
+    for i in range(0, len(iso5), 10):
+        out.append({"part": "crit5", "dags": [[list(e) for e in d] for d in iso5[i:i + 10]], "rot": seed})
     return out
 
 
@@ -56,6 +60,11 @@ def run_group(g, tier):
             _do(st, g["n"], dags[i])
     elif g["part"] == "query":
         _query(st, g)
+    elif g["part"] == "crit5":
+        perms = list(permutations(range(5)))
+        for d in g["dags"]:
+            for p in dict.fromkeys([perms[0], perms[(7 + 13 * g["rot"]) % 120]] if tier == "quick" else perms[::10]):
+                _crit(st, 5, [tuple(e) for e in d], list(p))
     else:
         dags = all_dags(g["n"])
         perms = list(permutations(range(g["n"])))
